@@ -21,7 +21,7 @@ import (
 // input, which is what a test uses, goes through. Added after round 9 (a "skip the repeat of the item before it"
 // shortcut in Distinct: `item == data[index-1]`).
 func init() {
-	for _, id := range []string{"C03", "C06", "C09", "C10", "C18"} {
+	for _, id := range []string{"C03", "C06", "C09", "C10", "C18", "C20"} {
 		register(id, ruleGoIfaceCompare)
 	}
 }
@@ -90,10 +90,21 @@ func holdsComparable(v ssa.Value, depth int) bool {
 
 func ruleGoIfaceCompare(c *Ctx) {
 	c.Doc("go.iface-compare", "no == / != between two interface values of the data, and no map keyed by an interface type, unless one side is known to hold a comparable dynamic type (a scalar made into an interface on every path, nil, two error values): the comparison panics when both hold a map or a slice, which is what every object and array of a row is; the sites of the pinned tree that do compare are an enumerated table with the reason each is accepted")
+	// over the functions reachable from the ones this property's rules analyse (a helper nobody calls breaks nothing)
+	reach := c.reachableFromAnalysed()
 	var fns []*ssa.Function
 	for _, f := range c.P.ModFuncs {
 		if len(f.Blocks) > 0 && strings.HasPrefix(funcPkgPath(f), modPath) {
-			fns = append(fns, f)
+			r := f
+			if o := r.Origin(); o != nil {
+				r = o
+			}
+			for r.Parent() != nil {
+				r = r.Parent()
+			}
+			if reach[r] {
+				fns = append(fns, f)
+			}
 		}
 	}
 	sort.Slice(fns, func(i, j int) bool { return c.P.funcKey(fns[i]) < c.P.funcKey(fns[j]) })
@@ -348,7 +359,7 @@ func init() {
 }
 
 func ruleC10CallbackGuarded(c *Ctx) {
-	c.Doc("c10.callback-guarded", "every call of a function-typed field of a struct of the module (the callbacks of Options) is dominated by a test that this field is not nil: a query made by Prepare with the caller's own Options carries whatever the caller left out, and a call of a nil function panics (in a goroutine's handler: the process ends)")
+	c.Doc("c10.callback-guarded", "every call of a function-typed field of an exported struct of the module (the callbacks of Options) is dominated by a test that this field is not nil: a query made by Prepare with the caller's own Options carries whatever the caller left out, and a call of a nil function panics (in a goroutine's handler: the process ends)")
 	n := 0
 	count := map[string]int{}
 	seen := map[string]bool{}
@@ -366,8 +377,8 @@ func ruleC10CallbackGuarded(c *Ctx) {
 			return nil, 0, false
 		}
 		nt, ok := pt.Elem().(*types.Named)
-		if !ok || nt.Obj().Pkg() == nil || !strings.HasPrefix(nt.Obj().Pkg().Path(), modPath) {
-			return nil, 0, false
+		if !ok || nt.Obj().Pkg() == nil || !strings.HasPrefix(nt.Obj().Pkg().Path(), modPath) || !nt.Obj().Exported() {
+			return nil, 0, false // an exported struct is what a caller can hand in with the field left out (&Options{}); a record of the module's own is filled by the module
 		}
 		return nt, fa.Field, true
 	}
@@ -434,8 +445,8 @@ func ruleC10CallbackGuarded(c *Ctx) {
 			c.Check(guarded, "c10.callback-guarded", fmt.Sprintf("%s#%d", id, count[id]), pos, "the call is made only where the field was found not nil", "the callback `"+fname+"` is called without a test that it is not nil: a query made by Prepare with the caller's own Options has none, the call panics (and in a goroutine's deferred handler the panic ends the process)")
 		})
 	}
-	if n < 6 {
-		c.Unknown("c10.callback-guarded", "inventory", "-", fmt.Sprintf("%d calls of a callback field found (at least 6 confirmed by hand: the asynchronous strategies, reportPanic, REPORT, REPORT_WHEN, completed)", n))
+	if n < 3 {
+		c.Unknown("c10.callback-guarded", "inventory", "-", fmt.Sprintf("%d calls of a callback field found (REPORT, REPORT_WHEN and the panic reporter each make one, whatever the asynchronous strategies share)", n))
 	}
 }
 
@@ -456,8 +467,9 @@ func cut(s string, n int) string {
 // (Go-built documents; JSON gives float64 only, which is what the tests use). Added after round 9: float32 "regrouped"
 // out of Compare's inner switch (falls to the text comparison: 10 > float32(9) is false), and a new "only scalars"
 // validation in ENCODE whose list omits int8, int16, uint, uint8, uint16 (DECODE(ENCODE(v)) fails for them).
-// Decided on the syntax tree: every type switch of the module that lists three or more numeric basic types lists all
-// twelve (in one or several cases).
+// Decided on the syntax tree: every type switch of the module that lists six or more numeric basic types lists all
+// twelve (in one or several cases). A switch that names fewer is a fast path (refactoring funcs7-r8: string, int, int64,
+// float32, float64 written directly, everything else through %v as before) and is left alone.
 func init() {
 	for _, id := range []string{"C01", "C02", "C03", "C04", "C05", "C06", "C15", "C18"} {
 		register(id, ruleGoNumericArms)
@@ -465,7 +477,7 @@ func init() {
 }
 
 func ruleGoNumericArms(c *Ctx) {
-	c.Doc("go.numeric-arms", "every type switch of the module that lists three or more of Go's numeric types lists all twelve (int, int8, int16, int32, int64, uint, uint8, uint16, uint32, uint64, float32, float64): a kind that is left out takes the default arm — an error, a text comparison, a zero — only for documents built in Go with that kind (syntax tree with the type checker's types; the functions reachable from the ones this property's rules analyse)")
+	c.Doc("go.numeric-arms", "every type switch of the module that lists six or more of Go's twelve numeric types (a list that sets out to be complete, not a fast path for the common few in front of a general default) lists all twelve (int, int8, int16, int32, int64, uint, uint8, uint16, uint32, uint64, float32, float64): a kind that is left out takes the default arm — an error, a text comparison, a zero — only for documents built in Go with that kind (syntax tree with the type checker's types; the functions reachable from the ones this property's rules analyse)")
 	all := []types.BasicKind{types.Int, types.Int8, types.Int16, types.Int32, types.Int64, types.Uint, types.Uint8, types.Uint16, types.Uint32, types.Uint64, types.Float32, types.Float64}
 	reach := c.reachableFromAnalysed()
 	wanted := map[token.Pos]string{}
@@ -519,8 +531,8 @@ func ruleGoNumericArms(c *Ctx) {
 							}
 						}
 					}
-					if len(have) < 3 {
-						return true
+					if len(have) < 6 {
+						return true // a fast path for the common few (int, int64, float64 …) in front of a default that takes every type
 					}
 					k++
 					n++
@@ -540,6 +552,6 @@ func ruleGoNumericArms(c *Ctx) {
 		c.Unknown("go.numeric-arms", "inventory", "-", "no type switch over the numeric types was found (Compare and As have one each)")
 	}
 	if n == 0 {
-		c.PassTrivial("go.numeric-arms", "module", "-", "the functions of this property hold no type switch over three or more numeric types")
+		c.PassTrivial("go.numeric-arms", "module", "-", "the functions of this property hold no type switch over six or more numeric types")
 	}
 }
